@@ -236,6 +236,26 @@ Fixpoint to_valid_utf8_aux (skip : nat) (s : string) : string :=
   end.
 Definition to_valid_utf8 (s : string) : string := to_valid_utf8_aux 0 s.
 
+(* ---- `for _, char := range s` followed by string(char)[0]: the first byte of every rune of s.  A well-formed sequence
+   yields its lead byte (string(rune) re-encodes it), an ill-formed byte yields U+FFFD, whose encoding starts with 239. *)
+Fixpoint rune_leads_aux (skip : nat) (s : string) : list ascii :=
+  match s with
+  | EmptyString => []
+  | String c r =>
+      match skip with
+      | S k => rune_leads_aux k r
+      | O => match lead_info (byte_of c) with
+             | Some (k, lo, hi) => if conts_ok k lo hi r then c :: rune_leads_aux k r else chr 239 :: rune_leads_aux 0 r
+             | None => chr 239 :: rune_leads_aux 0 r
+             end
+      end
+  end.
+Definition rune_leads (s : string) : list ascii := rune_leads_aux 0 s.
+(* string(b) for a byte b: the UTF-8 encoding of U+00bb *)
+Definition go_string_of_byte (n : N) : string :=
+  if (n <? 128)%N then String (chr n) EmptyString
+  else String (chr (192 + (n / 64) mod 4)) (String (chr (128 + n mod 64)) EmptyString).
+
 (* ---- trimPartialRune (ircserver.go, repair of finding c15:len-delivered): an incomplete UTF-8 sequence at the end of a
    line (left there by the cut after 510 bytes) is removed.  utf8.RuneStart / utf8.FullRune as in unicode/utf8. *)
 Definition rune_start (n : N) : bool := negb (in_range 128 191 n).
@@ -266,6 +286,24 @@ Definition trim_at (s : string) (k : nat) (next : string) : string :=
     if rune_start (byte_at s i) then (if full_rune (sdrop i s) then s else stake i s) else next
   else s.
 Definition trim_partial_rune (s : string) : string := trim_at s 1 (trim_at s 2 (trim_at s 3 s)).
+
+(* ---- what a client holds after GET /messages: encoding/json writes U+FFFD for every byte that is not part of a
+   well-formed UTF-8 sequence (utf8.DecodeRune returns RuneError with width 1) and the client's decoder keeps it *)
+Definition fffd : string := String (chr 239) (String (chr 191) (String (chr 189) "")).
+Fixpoint json_delivered_aux (skip : nat) (s : string) : string :=
+  match s with
+  | EmptyString => EmptyString
+  | String c r =>
+      match skip with
+      | S k => String c (json_delivered_aux k r)
+      | O => match lead_info (byte_of c) with
+             | Some (k, lo, hi) => if conts_ok k lo hi r then String c (json_delivered_aux k r)
+                                   else fffd ++ json_delivered_aux 0 r
+             | None => fffd ++ json_delivered_aux 0 r
+             end
+      end
+  end.
+Definition json_delivered (s : string) : string := json_delivered_aux 0 s.
 
 (* insertion sort with bytewise order (= sort.Strings) *)
 Fixpoint insert_sorted (x : string) (l : list string) : list string :=
